@@ -8,7 +8,7 @@
    not depend on the line counter except in their positions.  Those parts are
    covered by correspondence and hunter, see DESIGN.md 7/C05. *)
 From MF Require Import Lib.Base Lib.Regex Model.GrammarTypes Model.Lexer Model.LR Model.Case Model.Transformer
-  Proofs.C05 Proofs.C02 Proofs.GrammarFacts Proofs.SepFacts Proofs.SepSkip Gen.Grammar.
+  Proofs.C05 Proofs.C02 Proofs.GrammarFacts Proofs.SepFacts Proofs.SepSkip Proofs.C05U Proofs.C05U_Transform Model.Api Gen.Grammar.
 
 (* ---- letter case of keywords *)
 
@@ -146,6 +146,80 @@ Example C05_comment_bodies :
   lazy_ok (Str " a / b # ""q"" ") = true /\ lazy_ok (Str "") = true /\ lazy_ok (Str "/") = true /\
   lazy_ok (Str " x */ y ") = false.
 Proof. vm_compute. repeat split; reflexivity. Qed.
+
+(* ---- separators do not change the parse (Proofs/C05U.v, C05U_Transform.v) *)
+
+(* [U] lexing and parsing read positions only to record them: from two lexer
+   states with the same remaining text (any line counters, either comment mode)
+   and stacks equal up to positions, the parse loop yields the same token types
+   and values, the same tree up to positions/metas, the same error class
+   ([F] no terminal pattern uses an anchor that reads the absolute offset) *)
+Theorem C05_parse_is_position_independent :
+  forall h wc wc' fuel st st' ss vs vs' acc acc',
+    ls_rest st = ls_rest st' -> map erase_tree vs = map erase_tree vs' -> map erase_tok acc = map erase_tok acc' ->
+    erase_run (parse_loop the_grammar h wc fuel st ss vs acc) =
+    erase_run (parse_loop the_grammar h wc' fuel st' ss vs' acc').
+Proof. exact C05U_parse_loop_position_independent. Qed.
+Print Assumptions C05_parse_is_position_independent.
+
+(* [U] any sequence of separators (the four forms above, each standing where
+   the next one or the text begins) in front of ANY text: same tokens, same tree
+   up to positions, same error class *)
+Theorem C05_leading_separators_parse :
+  forall wc wc' cs text,
+    seps_ok false cs text ->
+    erase_pres (parse_text the_grammar the_hook wc (concat cs ++ text)) = erase_pres (parse_text the_grammar the_hook wc' text).
+Proof. exact C05U_leading_separators_parse_text. Qed.
+Print Assumptions C05_leading_separators_parse.
+
+(* [U] ... and the same dictionary from loads (bookkeeping off), literally, when
+   it holds no key spelled __position__ ... *)
+Theorem C05_leading_separators_loads :
+  forall cs text w, seps_ok false cs text ->
+    loads false false text = Ok w -> no_pos_key w = true ->
+    loads false false (concat cs ++ text) = Ok w.
+Proof. exact C05U_loads_leading_separators_guarded. Qed.
+Print Assumptions C05_leading_separators_loads.
+
+(* [R] ... and not otherwise: an attribute spelled __type__ is taken for a block
+   by composite() and its position record leaks into the plain dictionary, so a
+   leading line break changes the result (known finding C05-attr-named-type;
+   same two results on mappyfile.loads) *)
+Theorem C05_leading_separator_refuted :
+  exists (c text : str) (v w : value),
+    sep_ok false c text /\
+    loads false false (c ++ text) = Ok v /\ loads false false text = Ok w /\ v <> w.
+Proof. exact loads_leading_separator_refuted. Qed.
+Print Assumptions C05_leading_separator_refuted.
+
+(* [U] any two separator sequences between the same two tokens give the same
+   dictionary up to the values under __position__ keys.  PARTIAL: assumes that
+   the lexer finishes the tokens of [pre] at the same place with the same stacks
+   in both texts - not derivable in general, because a token may run into the
+   separator ([R] below: PATH takes the slash of a following C comment, known
+   finding C05-path-swallows-c-comment) *)
+Theorem C05_separators_between_tokens_partial :
+  forall pre cs cs' post C C' state ss,
+    reaches the_grammar the_hook false (init the_grammar (pre ++ concat cs ++ post)) C ->
+    ls_rest (c_st C) = concat cs ++ post ->
+    reaches the_grammar the_hook false (init the_grammar (pre ++ concat cs' ++ post)) C' ->
+    ls_rest (c_st C') = concat cs' ++ post ->
+    c_ss C = state :: ss -> c_ss C' = state :: ss ->
+    map erase_tree (c_vs C) = map erase_tree (c_vs C') ->
+    map erase_tok (c_acc C) = map erase_tok (c_acc C') ->
+    seps_ok (state_uss the_grammar state) cs post -> seps_ok (state_uss the_grammar state) cs' post ->
+    erase_lres (loads false false (pre ++ concat cs ++ post)) =
+    erase_lres (loads false false (pre ++ concat cs' ++ post)).
+Proof. exact C05U_loads_separators_between_tokens_partial. Qed.
+Print Assumptions C05_separators_between_tokens_partial.
+
+Theorem C05_separator_after_extensible_token_refuted :
+  exists pre chunk post,
+    sep_ok false chunk post /\
+    (exists t, erase_pres (parse_text the_grammar the_hook false (pre ++ post)) = Ok t) /\
+    erase_pres (parse_text the_grammar the_hook false (pre ++ chunk ++ post)) = Err (LarkUnexpectedToken 0 0).
+Proof. exact separator_after_extensible_token_refuted. Qed.
+Print Assumptions C05_separator_after_extensible_token_refuted.
 
 (* ---- quote choice *)
 
